@@ -366,10 +366,12 @@ class RefsContainer:
             prefix is stripped from the ref names returned.
         """
         keys: set[Ref] = set()
-        base_len = len(base) + 1
+        # A base is a path prefix: refs/remotes/origin2/x is not under
+        # refs/remotes/origin, and a ref is not under itself.
+        prefix = base.rstrip(b"/") + b"/"
         for refname in self.allkeys():
-            if refname.startswith(base):
-                keys.add(Ref(refname[base_len:]))
+            if refname.startswith(prefix):
+                keys.add(Ref(refname[len(prefix) :]))
         return keys
 
     def as_dict(self, base: Ref | None = None) -> dict[Ref, ObjectID]:
@@ -963,14 +965,18 @@ class DiskRefsContainer(RefsContainer):
     def subkeys(self, base: Ref) -> set[Ref]:
         """Return subkeys under a given base reference path."""
         subkeys: set[Ref] = set()
+        # A base is a path prefix: a packed refs/remotes/origin2/x is not
+        # under refs/remotes/origin (the directory walk for the loose refs
+        # never saw it that way either), and a ref is not under itself.
+        prefix = base.rstrip(b"/") + b"/"
 
         for key in self._iter_loose_refs(base):
-            if key.startswith(base):
-                subkeys.add(Ref(key[len(base) :].strip(b"/")))
+            if key.startswith(prefix):
+                subkeys.add(Ref(key[len(prefix) :].strip(b"/")))
 
         for key in self.get_packed_refs():
-            if key.startswith(base):
-                subkeys.add(Ref(key[len(base) :].strip(b"/")))
+            if key.startswith(prefix):
+                subkeys.add(Ref(key[len(prefix) :].strip(b"/")))
         return subkeys
 
     def allkeys(self) -> set[Ref]:
